@@ -501,17 +501,45 @@ class RefModule:
         return len(glist)
 
     def delete_trainables(self, rv):
-        if rv.kind != "module":
-            raise Unspec("view-level delete_trainables")
-        self.trainables = []
+        if rv.kind == "module":
+            self.trainables = []
+            return
+        # Through a view: the trainables *in view* are removed.  Asserted only where that is well defined in the library:
+        # channel and synapse parameters (the view filter of the library ignores every other key), and parameter groups
+        # that lie entirely inside or entirely outside the view.
+        chan_params = set(k for c in self.chans.values() for k in c["params"])
+        syn_params = set(k for s_ in self.syns for k in s_["params"])
+        new = []
+        for t in self.trainables:
+            if t["key"] in chan_params:
+                inview = set(rv.N)
+            elif t["key"] in syn_params:
+                inview = set(rv.E)
+            else:
+                raise Unspec("view-level delete_trainables with a trainable that is neither a channel nor a synapse parameter")
+            groups, vals = [], []
+            for g, v in zip(t["groups"], t["vals"]):
+                n_in = sum(1 for r_ in g if r_ in inview)
+                if n_in == 0:
+                    groups.append(g)
+                    vals.append(v)
+                elif n_in != len(g):
+                    raise Unspec("view-level delete_trainables with a parameter group only partly in view")
+            if groups:
+                new.append({"key": t["key"], "groups": groups, "vals": vals})
+        self.trainables = new
 
-    def write_trainables(self, values):
-        """values: list (per trainable) of list of floats."""
+    def write_trainables(self, values, skip_absent=False):
+        """values: list (per trainable) of list of floats.  skip_absent: rows whose value is NaN (the channel was
+        deleted there after make_trainable) are left alone — used to form the *simulated* model, where a parameter of an
+        absent channel has no effect."""
         for t, vals in zip(self.trainables, values):
             key = t["key"]
             for g, v in zip(t["groups"], vals):
                 for r in g:
                     if key in self.cols:
+                        if skip_absent and isnan(self.cols[key][r]):
+                            continue
                         self.cols[key][r] = float(v)
                     else:
                         self.edges[r]["vals"][key] = float(v)
